@@ -240,7 +240,7 @@ func genSQLBatch(r *Rng, g *EvGen) []*mocrelay.Event {
 			evs = append(evs, g.Deletion())
 		case len(g.made) > 0 && r.P(25):
 			// a new version of an earlier replaceable / addressable event, at -1/0/+1 s
-			t := pick(r, g.made)
+			t := pickVersioned(r, g.made)
 			e := g.Event()
 			e.Kind, e.Pubkey, e.Tags = t.Kind, t.Pubkey, t.Tags
 			e.CreatedAt = t.CreatedAt + int64(r.Range(-1, 1))
